@@ -95,9 +95,179 @@ def run(chk, tier):
             chk.bad("R03.6", "neg|" + k_, "unary minus on %s yields %s; expected %s (double: the IEEE sign flip, so that -(0.0) is -0.0 - `0.0 - x` gives +0.0; anything else an error)" % (k_, g_, rx_), nb_.file)
     for k_ in set(rows_) - set(want_) - set(int_rows):
         chk.bad("R03.6", "neg|" + k_, "unary minus has an unexpected case %s -> %s" % (k_, rows_[k_][:100]), nb_.file)
+    # ---- widening decision table (symbolic execution of type_prop over every variant pair)
+    chk.rule("R03.7", "type_prop's table: int/uint meet as int through i64::try_from (the pair stays mixed when the uint has no int value), bool meets int/uint as 0/1 of that type, "
+                      "anything numeric meets a double as `as f64` (bool as the constants 0.0 / 1.0), every other pair is returned unchanged and in order")
+    tpb = F.body("rscel::types::cel_value::CelValue::type_prop")
+    CVT_ = "rscel::types::cel_value::CelValue"
+    it_ = symex.Interp(F, semtables.LogicPolicy())
+    tp_rows = {}
+    INTO = r"(?:Into::into<T><-U|From::from<CelValue><-\w+|CelValue::from_\w+)"
+
+    def side(txt, me, other):
+        if txt == me or re.match(r"^CelValue::\w+\{\?%s\}$" % me, txt):
+            return "same"
+        if txt == other or re.match(r"^CelValue::\w+\{\?%s\}$" % other, txt):
+            return "SWAPPED"
+        m_ = re.match(r"^%s\((.*)\)$" % INTO, txt)
+        if not m_:
+            return txt
+        inner = m_.group(1)
+        m2 = re.match(r"^TryFrom<i64<-u64>::try_from\(%s\.UInt\.0\)\.Ok\.0$" % me, inner)
+        if m2:
+            return "try_from"
+        m2 = re.match(r"^as (i64|u64|f64)\(%s\.(Int|UInt|Bool)\.0\)$" % me, inner)
+        if m2:
+            return "as " + m2.group(1)
+        m2 = re.match(r"^const ([01])f64$", inner)
+        if m2:
+            return m2.group(1) + ".0"
+        return txt
+    for st_, r_ in it_.run(tpb, [symex.U("a", CVT_), symex.U("b", CVT_)]):
+        va = [c[2] for c in st_.cond if c[0] == "variant" and c[3] == "a"]
+        vb = [c[2] for c in st_.cond if c[0] == "variant" and c[3] == "b"]
+        tf = [c[2] for c in st_.cond if c[0] == "variant" and "try_from" in str(c[3])]
+        bl = [("1" if c[0] == "ne" else "0") for c in st_.cond if c[0] in ("eq", "ne") and re.match(r"^[ab]\.Bool\.0$", str(c[1]))]
+        key_ = (va[0] if va else "other", vb[0] if vb else "other") + tuple(tf) + tuple(bl)
+        if r_[0] != "tup" or len(r_[1]) != 2:
+            chk.bad("R03.7", "type_prop|%s" % (key_,), "type_prop returns %s" % symex.render(r_)[:100], tpb.file)
+            continue
+        tp_rows.setdefault(key_, set()).add((side(symex.render(r_[1][0]), "a", "b"), side(symex.render(r_[1][1]), "b", "a")))
+    same = ("same", "same")
+    want_tp = {("Int", "Int"): same, ("UInt", "UInt"): same, ("Float", "Float"): same, ("Bool", "Bool"): same,
+               ("Int", "UInt", "Ok"): ("same", "try_from"), ("Int", "UInt", "Err"): same,
+               ("UInt", "Int", "Ok"): ("try_from", "same"), ("UInt", "Int", "Err"): same,
+               ("Int", "Float"): ("as f64", "same"), ("UInt", "Float"): ("as f64", "same"),
+               ("Float", "Int"): ("same", "as f64"), ("Float", "UInt"): ("same", "as f64"),
+               ("Int", "Bool"): ("same", "as i64"), ("UInt", "Bool"): ("same", "as u64"),
+               ("Bool", "Int"): ("as i64", "same"), ("Bool", "UInt"): ("as u64", "same"),
+               ("Float", "Bool", "0"): ("same", "0.0"), ("Float", "Bool", "1"): ("same", "1.0"),
+               ("Bool", "Float", "0"): ("0.0", "same"), ("Bool", "Float", "1"): ("1.0", "same")}
+    alt_tp = {("Float", "Bool"): ("same", "as f64"), ("Bool", "Float"): ("as f64", "same")}      # an `as` chain from bool is equally exact
+    for key_, got_ in sorted(tp_rows.items()):
+        name_ = "type_prop|" + ",".join(key_)
+        if key_ in want_tp or key_ in alt_tp:
+            w_ = want_tp.get(key_) or alt_tp[key_]
+        elif "other" in key_[:2] and len(key_) == 2:
+            w_ = same
+        else:
+            chk.bad("R03.7", name_, "unexpected case in the widening table: %s -> %s" % (key_, sorted(got_)), tpb.file)
+            continue
+        if got_ == {w_}:
+            chk.ok("R03.7", name_, w_)
+        else:
+            chk.bad("R03.7", name_, "operands (%s) are widened to %s; the fixed rule is %s" % (", ".join(key_), sorted(got_), w_), tpb.file)
+    for key_ in want_tp:
+        if key_ not in tp_rows and not (key_[:2] in alt_tp and key_[:2] in tp_rows):
+            chk.bad("R03.7", "type_prop|" + ",".join(key_), "the widening table has no case for (%s): the pair reaches the operators unwidened" % ", ".join(key_), tpb.file)
+    chk.floor("R03.7", "rows of the widening table", len(tp_rows), 20)
+    # ---- operator decision tables (symbolic execution of each binary operator impl over every pair type_prop can hand it)
+    chk.rule("R03.8", "each binary operator's table: int and uint pairs go through the checked primitive on (left, right) with None -> error, double pairs through the IEEE operation on (left, right), "
+                      "`/` and `%` test the right operand against zero first, a failed left operand wins over a failed right one, and every pair outside the numeric diagonal, "
+                      "string/bytes/list concatenation (left then right) and timestamp/duration arithmetic is an error")
+
+    class OpPolicy(semtables.LogicPolicy):
+        max_paths = 8000
+
+        def stub(self, interp, st, path, c, args, t, caller):
+            if path.endswith("CelValue::type_prop"):
+                return [(st, ("tup", (symex.U("ta", CVT_), symex.U("tb", CVT_))))]
+            return None
+    SYM = {"Add": "Add", "Sub": "Sub", "Mul": "Mul", "Div": "Div", "Rem": "Rem"}
+    PRIM = {"Add": "checked_add", "Sub": "checked_sub", "Mul": "checked_mul", "Div": "checked_div", "Rem": "checked_rem"}
+    NONNUM_OK = {"Add": {("String", "String"), ("Bytes", "Bytes"), ("List", "List"), ("TimeStamp", "Duration"), ("Duration", "TimeStamp"), ("Duration", "Duration")},
+                 "Sub": {("TimeStamp", "Duration"), ("Duration", "Duration"), ("TimeStamp", "TimeStamp"), ("Duration", "TimeStamp")}}
+    n_rows = 0
+    for op_ in ("Add", "Sub", "Mul", "Div", "Rem"):
+        ob = F.body("<rscel::types::cel_value::CelValue as std::ops::%s>::%s" % (op_, METH[op_]))
+        it_ = symex.Interp(F, OpPolicy())
+        table_ = {}
+        for st_, r_ in it_.run(ob, [symex.U("a", CVT_), symex.U("b", CVT_)]):
+            rr_ = symex.render(r_)
+            ea = [c for c in st_.cond if c[0] in ("eq", "ne") and c[1] == "CelValue::is_err(a)"]
+            eb = [c for c in st_.cond if c[0] in ("eq", "ne") and c[1] == "CelValue::is_err(b)"]
+            a_failed = bool(ea) and ea[0][0] == "ne"
+            b_failed = bool(eb) and eb[0][0] == "ne"
+            if rr_ in ("a", "b"):
+                if (rr_ == "a" and a_failed) or (rr_ == "b" and b_failed and ea and not a_failed):
+                    chk.ok("R03.8", "%s|failed operand %s" % (op_, rr_))
+                else:
+                    chk.bad("R03.8", "%s|failed operand %s" % (op_, rr_), "`%s` returns operand %s on a path where %s: a failed left operand must win, then a failed right one" % (op_, rr_, [c for c in st_.cond if "is_err" in str(c[1])]), ob.file)
+                continue
+            va = [c[2] for c in st_.cond if c[0] == "variant" and c[3] == "ta"]
+            vb = [c[2] for c in st_.cond if c[0] == "variant" and c[3] == "tb"]
+            zero = [("zero" if c[0] == "ne" else "nonzero") for c in st_.cond if c[0] in ("eq", "ne") and re.match(r"^Eq\(tb\.(Int|UInt)\.0, 0\)$", str(c[1]))]
+            zl = [c for c in st_.cond if c[0] in ("eq", "ne") and re.match(r"^Eq\(ta\.(Int|UInt)\.0, 0\)$", str(c[1]))]
+            if zl:
+                chk.bad("R03.8", "%s|zero test on the left operand" % op_, "`%s` tests its LEFT operand against zero" % op_, ob.file)
+            opt = [c[2] for c in st_.cond if c[0] == "variant" and "checked_" in str(c[3]) and c[1] == "Option"]
+            key_ = (va[0] if va else "other", vb[0] if vb else "other")
+            table_.setdefault(key_, []).append((tuple(zero), tuple(opt), rr_))
+        n_rows += sum(len(v) for v in table_.values())
+        for ty_, prim_ty in (("Int", "i64"), ("UInt", "u64")):
+            rows2 = table_.get((ty_, ty_), [])
+            call_ = "%s::%s(ta.%s.0, tb.%s.0)" % (prim_ty, PRIM[op_], ty_, ty_)
+            plain_ = "%s(ta.%s.0, tb.%s.0)" % (SYM[op_], ty_, ty_)
+            ok_ = bool(rows2)
+            why_ = []
+            seen_val = False
+            for zero, opt, rr_ in rows2:
+                if op_ in ("Div", "Rem"):
+                    if zero == ("zero",):
+                        if not rr_.startswith("CelValue::from_err("):
+                            ok_ = False
+                            why_.append("a zero right operand yields %s" % rr_[:60])
+                        continue
+                    if zero != ("nonzero",):
+                        ok_ = False
+                        why_.append("a result is computed without testing the right operand against zero: %s" % rr_[:60])
+                        continue
+                if opt == ("None",):
+                    if not rr_.startswith("CelValue::from_err("):
+                        ok_ = False
+                        why_.append("an unrepresentable result yields %s" % rr_[:60])
+                elif opt == ("Some",):
+                    if re.match(r"^%s\(%s\.Some\.0\)$" % (INTO, re.escape(call_)), rr_):
+                        seen_val = True
+                    else:
+                        ok_ = False
+                        why_.append("the representable case yields %s, expected %s" % (rr_[:80], call_))
+                elif op_ in ("Div", "Rem") and ty_ == "UInt" and re.match(r"^%s\(%s\)$" % (INTO, re.escape(plain_)), rr_):
+                    seen_val = True          # unsigned / and % cannot overflow once the divisor is non-zero
+                else:
+                    ok_ = False
+                    why_.append("unchecked result %s" % rr_[:80])
+            if ok_ and seen_val:
+                chk.ok("R03.8", "%s|%s,%s" % (op_, ty_, ty_), call_)
+            else:
+                chk.bad("R03.8", "%s|%s,%s" % (op_, ty_, ty_), "`%s` on two %s values: %s" % (op_, ty_, why_ or "no value-producing case found"), ob.file)
+        rows2 = table_.get(("Float", "Float"), [])
+        if op_ == "Rem":
+            pass_ = all(rr_.startswith("CelValue::from_err(") for _, _, rr_ in rows2) or all(re.match(r"^%s\(Rem\(ta\.Float\.0, tb\.Float\.0\)\)$" % INTO, rr_) for _, _, rr_ in rows2)
+        else:
+            pass_ = bool(rows2) and all(re.match(r"^%s\(%s\(ta\.Float\.0, tb\.Float\.0\)\)$" % (INTO, SYM[op_]), rr_) and not z for z, _, rr_ in rows2)
+        if pass_:
+            chk.ok("R03.8", "%s|Float,Float" % op_)
+        else:
+            chk.bad("R03.8", "%s|Float,Float" % op_, "`%s` on two doubles must be the IEEE operation on (left, right) with no special cases: %s" % (op_, [r3[:80] for _, _, r3 in rows2]), ob.file)
+        for key_, rows2 in sorted(table_.items()):
+            if key_[0] == key_[1] and key_[0] in ("Int", "UInt", "Float"):
+                continue
+            vals = [rr_ for _, _, rr_ in rows2 if not rr_.startswith("CelValue::from_err(")]
+            if not vals:
+                chk.ok("R03.8", "%s|%s,%s" % ((op_,) + key_), "error")
+                continue
+            if key_ in NONNUM_OK.get(op_, ()):
+                if key_[0] in ("String", "Bytes", "List") and not all(0 <= v.find("ta.") < v.find("tb.") for v in vals):
+                    chk.bad("R03.8", "%s|%s,%s" % ((op_,) + key_), "concatenation must keep the left operand first: %s" % vals, ob.file)
+                else:
+                    chk.ok("R03.8", "%s|%s,%s" % ((op_,) + key_), "non-numeric case outside this property (concatenation / time arithmetic)")
+                continue
+            chk.bad("R03.8", "%s|%s,%s" % ((op_,) + key_), "`%s` between %s and %s must be an error, but yields %s" % (op_, key_[0], key_[1], vals[:2]), ob.file)
+    chk.floor("R03.8", "rows of the five operator tables", n_rows, 90)
     return chk.finish(
         "MIR of the six arithmetic operator impls (incl. their error_prop_or closures) and type_prop: exhaustive over their Assert terminators, "
         "numeric casts and resolved callees. Decides that no integer arm can wrap or depend on the build profile and that widening is value-preserving; "
-        "does not compute numeric results.",
+        "plus decision tables of unary minus, type_prop and the five binary operators by symbolic execution. Does not compute numeric results.",
         ["rustc MIR (overflow checks appear as Assert terminators at mir-opt-level 0)", "std checked_* / try_from contracts"],
-        ["default feature set (type_prop on)"], technique="MIR assert/cast/callee rules over operator impls")
+        ["default feature set (type_prop on)"], technique="MIR assert/cast/callee rules over operator impls + symbolic-execution decision tables of neg, type_prop and + - * / %")
